@@ -15,7 +15,10 @@ OWN = ["TorrentFile", "Assembler2", "Assembler3", "TorrentFileV2", "TorrentFileH
 @st.composite
 def meta_source(draw, nfiles, single):
     if draw(st.booleans()):
-        return {"kind": "own", "creator": draw(st.sampled_from(OWN))}
+        src = {"kind": "own", "creator": draw(st.sampled_from(OWN))}
+        if src["creator"] == "TorrentFile" and not single and draw(st.booleans()):
+            src["align"] = True          # the tool's own `--align` output: v1 with BEP 47 padding entries
+        return src
     version = draw(st.sampled_from([1, 1, 2, 3]))
     src = {"kind": "ref", "version": version, "order": None, "align": False, "trailing_pad": False,
            "v2_single_length": False}
@@ -68,8 +71,17 @@ def case_strategy(tier, modes, damage_min, damage_max, max_files=None):
         P = draw(trees.piece_length(tier))
         t = draw(trees.tree(P, max_files=max_files or (7 if tier == "quick" else 16), modes=modes, nonempty_total=True))
         src = draw(meta_source(len(t["files"]), t["single"]))
+        if draw(st.sampled_from([True] + [False] * 14)):
+            # the tool's aligned output names its padding entries .pad/<length>: a payload that really contains a file of
+            # that very name (say, left behind by a client that materialises padding) meets its own padding entry
+            P = 32768
+            mode = "nz" if "nz" in modes else modes[0]
+            t = {"name": t["name"], "single": False, "files": [
+                {"path": [".pad", "16384"], "size": 16384, "mode": mode, "seed": draw(st.integers(0, 999))},
+                {"path": ["a.bin"], "size": draw(st.sampled_from([1, 16384, 40000])), "mode": mode, "seed": draw(st.integers(0, 999))}]}
+            src = {"kind": "own", "creator": "TorrentFile", "align": True}
         dmg = draw(damage_list(t, damage_min, damage_max)) if damage_max else []
-        return {"tree": t, "P": P, "meta": src, "content_path": draw(st.sampled_from(["root", "parent", "root", "parent", "root-symlink"])), "damage": dmg,
+        return {"tree": t, "P": P, "meta": src, "content_path": draw(st.sampled_from(["root", "parent", "root", "parent", "root-symlink", "root-dot", "root-slash-dot", "root-rel"])), "damage": dmg,
                 # "prime": the same process first rechecks the intact payload; the damage is then applied in place with the
                 # old timestamps restored (bit rot, cp -p), so anything remembered per file from the first run is stale
                 "prime": draw(st.sampled_from([False, False, True])) if dmg else False}
@@ -85,7 +97,7 @@ def build(scr, case):
     root = sandbox.materialize(tree, parent)
     out = os.path.join(scr, "out", "m.torrent")
     if src["kind"] == "own":
-        common.create(src["creator"], "lib", root, out, P)
+        common.create(src["creator"], "lib", root, out, P, extra_kw={"align": True} if src.get("align") else None)
     else:
         data = refmeta.build(tree, P, src["version"], order=src.get("order"), align=src.get("align", False),
                              trailing_pad=src.get("trailing_pad", False),
@@ -151,12 +163,32 @@ def _apply_damage(root, tree, damage, changed):
     return real
 
 
+def content_of(case, root, parent):
+    """The content argument for the drawn spelling: a path, or (path, working directory) for the relative spellings."""
+    cp = case["content_path"]
+    if cp == "parent":
+        return parent
+    if cp == "root-dot" and os.path.isdir(root):
+        return (".", root)                      # `cd payload; torrentfile recheck x.torrent .`
+    if cp == "root-slash-dot" and os.path.isdir(root):
+        return root + "/."
+    if cp == "root-rel":
+        return (os.path.basename(root), parent)
+    return root
+
+
 def tool_recheck(metafile, content):
     """(percentage | None, exception | None)."""
+    old = os.getcwd()
     try:
+        if isinstance(content, tuple):
+            os.chdir(content[1])
+            content = content[0]
         return target.recheck_pct(metafile, content), None
     except Exception as e:  # noqa: BLE001 - the caller decides what an exception means
         return None, e
+    finally:
+        os.chdir(old)
 
 
 def shape_classes(case, meta):
